@@ -101,7 +101,7 @@ pub fn worker_loop(runner: &mut dyn UnitRunner) {
   }
   use std::os::unix::io::FromRawFd;
   let mut proto = unsafe { std::fs::File::from_raw_fd(proto_fd) };
-  crate::subject::silence_panics();
+  if std::env::var("MC_WORKER_STDERR").is_err() { crate::subject::silence_panics(); }
   let _ = writeln!(proto, "READY");
   let stdin = std::io::stdin();
   for line in stdin.lock().lines() {
